@@ -1111,7 +1111,7 @@ def engine_tie(ctx, results_or_programs, pid, nprog=None, nhist=None, nmerge=Non
                                                                   coq_list([ecall_coq(c) for c in h["calls"]])))
             where[s].append((res, h))
     try:
-        vals = engine.coq_run(ctx, "Engine", "tie_%s" % pid.lower(), [("\n".join(p), e) for (p, e) in shards], HEADER1)
+        vals = engine.coq_run(ctx, "Engine", "tie_%s" % pid.lower(), [("\n".join(p), e) for (p, e) in shards], HEADER1, timeout=3600)
     except Exception as ex:
         ctx.broken.append("engine tie: evaluation of RunW.run_engineW failed: %s" % str(ex)[:400])
         vals = None
